@@ -614,6 +614,7 @@ THEOREMS.update({
     "C20_unused_iff": "full",
     "C20_unused_set": "full",
     "C20_verdict_spec_partial": "partial",
+    "C20_decisive_tolerance": "full",
     "C20_verdict_spec_ex": "example",
     "C20_exact_full_use_remainder_refuted": "refuted",
     "C20_scale_invariant_exact": "full",
